@@ -337,6 +337,48 @@ def classify_trigger(labels_by_hash, cfgs):
     return "only-under-hash-perturbation"
 
 
+def shared_decompiler(ctx):
+    """ONE Analysis holding several DEX files served by ONE DecompilerDAD object (its get_source_method / the methods' get_source), asked for the
+    methods file by file, in the reverse file order and interleaved: every method's text must be the one a decompiler of its own gives."""
+    from androguard.core.analysis.analysis import Analysis
+    from androguard.core.dex import DEX
+    from androguard.decompiler.decompiler import DecompilerDAD
+    from vf.checks import c21
+    datas = load_inputs(["multidex.apk", "Test.dex", "FieldsTest.dex", "InterfaceCls.dex", "gen:7:6"])
+    fresh = {}
+    for name, data in datas:
+        d, dx = c21.load_dad(data)
+        for em in d.get_encoded_methods():
+            fresh["%s|%s" % (name, em.full_name if hasattr(em, "full_name") else em.get_triple())] = decompile_method(em)
+    for order in ("forward", "reverse", "interleaved"):
+        dexes = [(name, DEX(data)) for name, data in datas]
+        an = Analysis()
+        for _, d in dexes:
+            an.add(d)
+        dec = DecompilerDAD(dexes[0][1], an)
+        for _, d in dexes:
+            d.set_decompiler(dec)
+        an.create_xref()
+        todo = [(name, em) for name, d in dexes for em in d.get_encoded_methods()]
+        if order == "reverse":
+            todo = [(name, em) for name, d in reversed(dexes) for em in d.get_encoded_methods()]
+        elif order == "interleaved":
+            random.Random("c22-shared").shuffle(todo)
+        bad = []
+        for name, em in todo:
+            ctx.ev()
+            ctx.count("methods_decompiled_by_a_decompiler_shared_between_dex_files")
+            key = "%s|%s" % (name, em.full_name if hasattr(em, "full_name") else em.get_triple())
+            got = decompile_method(em)
+            if not got.startswith("<<raises"):
+                ctx.count("methods_with_source_from_a_shared_decompiler")
+            if got != fresh[key]:
+                bad.append({"method": key, "shared_decompiler": got[:300], "own_decompiler": fresh[key][:300]})
+        if bad:
+            ctx.violation("text-depends-on-other-dex-served-by-the-same-decompiler", "a method's text differs when one decompiler object serves several DEX files of an Analysis",
+                          {"request_order": order, "files": [n for n, _ in datas], "differing": len(bad), "witnesses": bad[:3]})
+
+
 def run(ctx):
     from vf.monitor import hashperturb as HP
     ctx.rule = ("each method of the chosen DEX files decompiled in N fresh processes (different PYTHONHASHSEED, allocation noise, gc, order, "
@@ -350,6 +392,7 @@ def run(ctx):
         ctx.inconclusive("hash perturbation premise broken: " + "; ".join(bad_audit))
         return
     quick = ctx.quick
+    shared_decompiler(ctx)
     if quick:
         inputs = ["classes.dex", "Annotation_classes.dex"] + SMALL_DEX + ["gen:0:60", "crafted:flags"]
         groups = [inputs]
@@ -438,6 +481,7 @@ def run(ctx):
                            "variants": variants.get(base)})
     ctx.require_counter("children", len(args))
     ctx.require_counter("keys_seen_by_>=2_children", 100)
+    ctx.require_counter("methods_with_source_from_a_shared_decompiler", 60)
     ctx.require_counter("perturbed_objects_hashed", 1000)
     ctx.require_counter("site Interval.compute_end:set>=2", 10)
     ctx.min_distinct = 100
